@@ -26,18 +26,19 @@ import (
 
 // Store is the API server's content.
 type Store struct {
-	Pods         map[string]*v1.Pod
-	Nodes        map[string]*v1.Node
-	BindRequests map[string]*schedulingv1alpha2.BindRequest
-	ConfigMaps   map[string]*v1.ConfigMap
-	Queues       []*schedulingv2.Queue
-	PodGroups    []*schedulingv2alpha2.PodGroup
-	Calls        []string // every API call, in order
-	Writes       []string // mutating calls only
-	Faulted      []string // calls that were made to fail
-	FaultsOn     bool
-	CrashesOn    bool // a call may be the last thing the process does (see Crashed)
-	Crashed      bool
+	Pods          map[string]*v1.Pod
+	Nodes         map[string]*v1.Node
+	BindRequests  map[string]*schedulingv1alpha2.BindRequest
+	ConfigMaps    map[string]*v1.ConfigMap
+	Queues        []*schedulingv2.Queue
+	PodGroups     []*schedulingv2alpha2.PodGroup
+	Calls         []string // every API call, in order
+	Writes        []string // mutating calls only
+	Faulted       []string // calls that were made to fail
+	FaultsOn      bool
+	CrashesOn     bool // a call may be the last thing the process does (see Crashed)
+	Crashed       bool
+	WatchFailures int // watches that did not deliver the reservation pod's GPU index
 }
 
 // CrashPanic is what every API call raises once the process has "died": the code under test unwinds
@@ -68,7 +69,7 @@ func (s *Store) call(site string, write bool) error {
 		s.Faulted = append(s.Faulted, site)
 		return &apiError{"injected API failure at " + site}
 	}
-	if s.CrashesOn && vr.Fault("crash-before-" + site) {
+	if s.CrashesOn && vr.Fault("crash-before-"+site) {
 		// the process dies before this call reaches the API server
 		s.Crashed = true
 		panic(CrashPanic{})
@@ -586,6 +587,9 @@ func (c *Client) Watch(ctx context.Context, list client.ObjectList, opts ...clie
 	outcome := 0 // a healthy environment annotates the reservation pod
 	if c.S.FaultsOn {
 		outcome = vr.Choose("watch-outcome", 4)
+	}
+	if outcome != 0 {
+		c.S.WatchFailures++
 	}
 	switch outcome {
 	case 0:
